@@ -2,14 +2,11 @@
 
    Proved (on cgen._ft_c_type translated into Gen/PyFuns.v, re-validated against the real function
    on every check):
-     * C14_ctype_partial: for every well-formed field type in which every real field type has
-       alignment = size, the C type the generator chooses is the documented one (smallest of the
-       8/16/32/64-bit integer types by signedness, float / double, const char *, pointer to const
-       element);
-     * C14_ctype_refuted (S1): the full statement fails: a 32-bit real with the default alignment 8
-       gets uint64_t instead of float -- replayed on the real code by the check;
-       C14_ctype_real_misaligned: exactly the reals with alignment <> size are affected;
-     * C14_protos_partial: with that type table the parameter lists of the open / trace functions
+     * C14_ctype: for EVERY well-formed field type the C type the generator chooses is the
+       documented one (smallest of the 8/16/32/64-bit integer types by signedness, float / double
+       for reals of any alignment - S1 was repaired by fix: commit 6c479ec in /repo -, const
+       char *, pointer to const element);
+     * C14_protos: with that type table the parameter lists of the open / trace functions
        are the documented ones (cc_, sc_, p_ / pc_ members in order, dynamic array = uint32_t
        length + pointer), one open/close pair per stream, one tracing function per event record
        type (C14_protos_count).
@@ -22,28 +19,15 @@ From BT.Front Require Import Prefix CTypes CTypesProofs Protos ProtosProofs.
 From BT.Gen Require Import PyFuns.
 Open Scope N_scope.
 
-Theorem C14_ctype_partial : forall t k fuel,
-    wf_ft t = true -> reals_naturally_aligned t = true -> (ft_depth t <= fuel)%nat ->
+Theorem C14_ctype : forall t k fuel,
+    wf_ft t = true -> (ft_depth t <= fuel)%nat ->
     ft_c_type fuel t k = Some (doc_c_type t k).
-Proof. exact ctype_partial. Qed.
-Print Assumptions C14_ctype_partial.
+Proof. exact ft_c_type_doc. Qed.
+Print Assumptions C14_ctype.
 
-Theorem C14_ctype_refuted : exists t k fuel,
-    wf_ft t = true /\ (ft_depth t <= fuel)%nat /\
-    ft_c_type fuel t k = Some (CArith (s2l "uint64_t") k) /\
-    ft_c_type fuel t k <> Some (doc_c_type t k).
-Proof. exact ctype_refuted. Qed.
-Print Assumptions C14_ctype_refuted.
-
-Theorem C14_ctype_real_misaligned : forall s a k f,
-    wf_ft (FReal s a) = true -> s <> a ->
-    ft_c_type (S f) (FReal s a) k = Some (CArith (s2l "uint64_t") k).
-Proof. exact ctype_real_misaligned. Qed.
-Print Assumptions C14_ctype_real_misaligned.
-
-Theorem C14_protos_partial : forall c, cfg_ok c = true -> protos_of real_c_type c = doc_protos c.
-Proof. exact protos_partial. Qed.
-Print Assumptions C14_protos_partial.
+Theorem C14_protos : forall c, cfg_ok c = true -> protos_of real_c_type c = doc_protos c.
+Proof. exact protos_doc. Qed.
+Print Assumptions C14_protos.
 
 Theorem C14_protos_count : forall f c, List.length (protos_of f c) = count_protos c.
 Proof. exact protos_count. Qed.
@@ -67,5 +51,5 @@ Proof. vm_compute. reflexivity. Qed.
 Example C14_example_types :
   ft_c_type 3 (FDArr (FInt true 17 1)) false = Some (CPtr (CArith (s2l "int32_t") true) false) /\
   ft_c_type 1 (FReal 32 32) false = Some (CArith (s2l "float") false) /\
-  ft_c_type 1 (FReal 32 8) false = Some (CArith (s2l "uint64_t") false).
+  ft_c_type 1 (FReal 32 8) false = Some (CArith (s2l "float") false).
 Proof. vm_compute. repeat split; reflexivity. Qed.
